@@ -936,10 +936,10 @@ theorem unescBytes_plain (cs : List Char) (h : '\\' ∉ cs) :
 
 /-! ### byte-offset slicing on ASCII text -/
 
-theorem isNumeric_digitChar : ∀ d, d < 10 → Garnish.Gen.CharRanges.isNumeric (digitChar d) = true := by
+theorem isAlphanumeric_digitChar : ∀ d, d < 10 → Garnish.Gen.CharRanges.isAlphanumeric (digitChar d) = true := by
   decide +kernel
 
-theorem isNumeric_space : Garnish.Gen.CharRanges.isNumeric ' ' = false := by decide +kernel
+theorem isAlphanumeric_space : Garnish.Gen.CharRanges.isAlphanumeric ' ' = false := by decide +kernel
 
 theorem utf8Size_ascii (c : Char) (h : c.toNat < 128) : c.utf8Size = 1 := by
   simp only [Char.utf8Size]
@@ -994,17 +994,17 @@ variable {F : Type} (pf : List Char → Option F)
 /-- what an entry spelling must satisfy: non-empty, made of numeric characters and `_`, ASCII, denotes `b` -/
 structure ByteSpelling (spell : Nat → List Char) (b : Nat) : Prop where
   ne : spell b ≠ []
-  chars : ∀ c ∈ spell b, (Garnish.Gen.CharRanges.isNumeric c = true ∨ c = '_') ∧ c.toNat < 128 ∧ c ≠ '\''
+  chars : ∀ c ∈ spell b, (Garnish.Gen.CharRanges.isAlphanumeric c = true ∨ c = '_') ∧ c.toNat < 128 ∧ c ≠ '\''
   value : parseSimpleNumber pf (spell b) = .ok (.int b)
 
-theorem byteNumLoop_digits (ds : List Char) (h : ∀ c ∈ ds, Garnish.Gen.CharRanges.isNumeric c = true ∨ c = '_')
+theorem byteNumLoop_digits (ds : List Char) (h : ∀ c ∈ ds, Garnish.Gen.CharRanges.isAlphanumeric c = true ∨ c = '_')
     (cur : List Char) (acc : List Nat) (tail : List Char) :
     byteNumLoop pf ⟨cur, acc⟩ (ds ++ tail) = byteNumLoop pf ⟨ds.reverse ++ cur, acc⟩ tail := by
   induction ds generalizing cur with
   | nil => simp
   | cons d ds ih =>
     have hd := h d (by simp)
-    have : (Garnish.Gen.CharRanges.isNumeric d || d == '_') = true := by
+    have : (Garnish.Gen.CharRanges.isAlphanumeric d || d == '_') = true := by
       rcases hd with h | h <;> simp [h]
     simp only [List.cons_append, byteNumLoop, byteNumStep, this, if_true, Outcome.bind]
     rw [ih (fun x hx => h x (by simp [hx]))]; simp
@@ -1014,7 +1014,7 @@ theorem byteNumLoop_space (cur : List Char) (acc : List Nat) (tail : List Char) 
     byteNumLoop pf ⟨cur, acc⟩ (' ' :: tail) = byteNumLoop pf ⟨[], b :: acc⟩ tail := by
   have hlen : cur.length > 0 := List.length_pos_iff.mpr hne
   have h1 : ¬ ((b : Int) < 0 ∨ (b : Int) > 255) := by omega
-  simp [byteNumLoop, byteNumStep, isNumeric_space, hlen, hv, Outcome.bind, h1]
+  simp [byteNumLoop, byteNumStep, isAlphanumeric_space, hlen, hv, Outcome.bind, h1]
 
 theorem byteNumLoop_entries (spell : Nat → List Char) (bs : List Nat) (hs : ∀ b ∈ bs, ByteSpelling pf spell b)
     (hb : ∀ b ∈ bs, b ≤ 255) (hne : bs ≠ []) (acc : List Nat) :
@@ -1149,8 +1149,8 @@ theorem byteSpelling_decimal (b : Nat) (hb : b ≤ 255) : ByteSpelling pf (spell
   chars := by
     intro c hc
     exact spellNat_chars 10 b (by omega)
-      (fun c => (Garnish.Gen.CharRanges.isNumeric c = true ∨ c = '_') ∧ c.toNat < 128 ∧ c ≠ '\'')
-      (fun d hd => ⟨Or.inl (isNumeric_digitChar d hd), by rw [digitChar_toNat d (by omega)]; split <;> omega,
+      (fun c => (Garnish.Gen.CharRanges.isAlphanumeric c = true ∨ c = '_') ∧ c.toNat < 128 ∧ c ≠ '\'')
+      (fun d hd => ⟨Or.inl (isAlphanumeric_digitChar d hd), by rw [digitChar_toNat d (by omega)]; split <;> omega,
         digitChar_ne d (by omega) '\'' (by decide)⟩) c hc
   value := by
     unfold parseSimpleNumber
